@@ -201,6 +201,62 @@ func c15Singletons(p *Prog, r *Report) {
 			}
 		}
 		fuse := accClosure(acc, useRoots)
+		// a job the constructor hands to the pool can start at once: the singletons its callback reaches must
+		// have been built by accessor calls that lie on every path to the registration (a call under a condition
+		// does not count, a call after the registration comes too late)
+		{
+			cf := p.FlatInl(ctor)
+			accNodes := map[string][]int{} // accessor key -> nodes that call it outside function literals
+			for _, n := range cf.Nodes {
+				if n.Ast == nil {
+					continue
+				}
+				if _, isDefer := n.Ast.(*ast.DeferStmt); isDefer {
+					continue
+				}
+				for k := range accessorCallsIn(p, ctor, n.Ast, false) {
+					accNodes[k] = append(accNodes[k], n.ID)
+				}
+			}
+			for _, n := range cf.Nodes {
+				if n.Ast == nil {
+					continue
+				}
+				var lits []*ast.FuncLit
+				ast.Inspect(n.Ast, func(x ast.Node) bool {
+					if l, ok := x.(*ast.FuncLit); ok {
+						lits = append(lits, l)
+						return false
+					}
+					return true
+				})
+				for _, lit := range lits {
+					used := accessorCallsIn(p, ctor, lit.Body, true)
+					if len(used) == 0 {
+						continue
+					}
+					need := accClosure(acc, used)
+					var names []string
+					for f := range need {
+						names = append(names, f)
+					}
+					sort.Strings(names)
+					for _, f := range names {
+						// accessor calls whose closure assigns f
+						var providers []int
+						for k, ids := range accNodes {
+							if _, gives := accClosure(acc, map[string]bool{k: true})[f]; gives {
+								providers = append(providers, ids...)
+							}
+						}
+						cons := w.ctor + "#singleton " + f + " before the job registered at " + p.pos(n.Ast)
+						okBefore := len(providers) > 0 && cf.MustPrecede(setOf(providers), n.ID)
+						r.Check(okBefore, "C15.a", cons, p.pos(n.Ast), "built on every path before the job can start",
+							fmt.Sprintf("the job registered here reaches the lazily built singleton %s (through %s), which the constructor does not build on every path before the registration: the worker goroutine and the constructor (or an API call) race on the unsynchronised check-then-assign", f, need[f]))
+					}
+				}
+			}
+		}
 		var fi, fu []string
 		for f := range finit {
 			fi = append(fi, f)
